@@ -20,7 +20,8 @@ import warnings
 
 from . import c02_e2e, common
 
-SIGS = ('C05:e2e-outcome-not-recorded', 'C05:e2e-not-withdrawn', 'C05:e2e-frame-changed', 'C05:e2e-no-answer')
+SIGS = ('C05:e2e-outcome-not-recorded', 'C05:e2e-not-withdrawn', 'C05:e2e-frame-changed', 'C05:e2e-no-answer',
+        'C05:e2e-no-quiescence')
 KINDS = {'runtime': 'failure', 'exit': 'failure', 'interrupt': 'failure', 'invalid-in': 'invalid',
          'invalid-out': 'invalid'}
 
@@ -43,7 +44,7 @@ def closure_down(algs):
     return down
 
 
-def run_scenario(store, sc, seed, res):
+def run_scenario(store, sc, seed, res, probe=None):
     warnings.simplefilter('ignore')
     logging.disable(logging.CRITICAL)
     algs, targets = sc['algs'], sc['targets']
@@ -80,7 +81,9 @@ def run_scenario(store, sc, seed, res):
                                  f'dependent {x}: pending {todo_b} -> {todo_a}, executing {doing_b} -> {doing_a} when '
                                  f'{tag}[{t}] ended with {kind} (only {t} may leave the pending work)'))
             elif x == tag:
-                if sorted(set(todo_b)) != sorted(set(todo_a)) or sorted(set(doing_b) - {t}) != sorted(doing_a):
+                # X's own pending T (a request that arrived while T was executing) is withdrawn by the same
+                # purge; the property constrains the OTHER targets of X
+                if sorted(set(todo_b) - {t}) != sorted(set(todo_a) - {t}) or sorted(set(doing_b) - {t}) != sorted(doing_a):
                     hits.append(('C05:e2e-frame-changed',
                                  f'{x}: pending {todo_b} -> {todo_a}, executing {doing_b} -> {doing_a} when its unit {t} '
                                  f'ended with {kind}'))
@@ -92,6 +95,23 @@ def run_scenario(store, sc, seed, res):
     w.on_result = on_result
     try:
         w.organize([c02_e2e.tag_of(a) for a in algs], targets)
+        if 'script' in sc:
+            # explicit interleaving: ('tick',), ('work', tag, target), ('bump', tag, target),
+            # ('fail', tag, target, kind) = the next run of that unit ends that way
+            for st in sc['script']:
+                if st[0] == 'fail':
+                    plan[(st[1], st[2])] = st[3]
+                    w.ctl.FAIL[(st[1], st[2])] = st[3]
+                else:
+                    w.script([tuple(st)])
+            if probe is not None:
+                probe(w, plan)
+            if not w.drain():
+                hits.append(('C05:e2e-no-quiescence',
+                             f'the pipeline does not come to rest: pending {w.pending()}, queued {len(w.tasks)}'))
+            stats['worker-deaths'] += len(w.worker_deaths)
+            stats['executions'] = len(w.executed)
+            return hits, stats
         w.drain()
         for tag, t, kind in sc['failures']:
             # the unit and everything below it is requested; the unit itself will end as planned
@@ -136,6 +156,61 @@ def corpus():
     return out
 
 
+def _small_task(args):
+    name, prefix, seed, max_bumps, max_fails = args
+    from .c08_store import Store
+    global _SMALL_STORE  # pylint: disable=global-statement
+    try:
+        store = _SMALL_STORE
+    except NameError:
+        store = _SMALL_STORE = Store()
+        store.install_loopback()
+    algs, targets = c02_e2e.SMALL[name]
+    sc = {'algs': algs, 'targets': targets, 'script': [list(s) for s in prefix]}
+    avail = []
+
+    def probe(w, plan):
+        if sum(1 for s in prefix if s[0] == 'bump') < max_bumps:
+            for tag in sorted(w.roots):
+                for t in targets:
+                    avail.append(('bump', tag, t))
+        if not prefix or prefix[-1][0] != 'tick':
+            avail.append(('tick',))
+        for m in sorted(w.tasks, key=lambda m: (m.jobid, m.target or '__all__')):
+            a = ('work', m.jobid, m.target or '__all__')
+            if a not in avail:
+                avail.append(a)
+            if sum(1 for s in prefix if s[0] == 'fail') < max_fails and (m.jobid, m.target or '__all__') not in plan:
+                for kind in ('runtime', 'invalid-in'):
+                    avail.append(('fail', m.jobid, m.target or '__all__', kind))
+
+    hits, stats = run_scenario(store, c02_e2e._norm(sc), seed, None, probe=probe)  # pylint: disable=protected-access
+    return name, prefix, avail, hits, stats.get('executions', 0)
+
+
+def exhaustive(ctx, res, depth=6, max_bumps=1, max_fails=2):
+    """every sequence of {new source data, tick, let one waiting unit run, make the next run of a waiting unit
+    fail / report invalid data} up to `depth` on the small engines of c02_e2e, then run to rest"""
+    import multiprocessing
+
+    frontier = [(name, ()) for name in c02_e2e.SMALL]
+    with multiprocessing.Pool(16) as pool:
+        for level in range(depth + 1):
+            jobs = [(name, prefix, ctx['seed'], max_bumps, max_fails) for name, prefix in frontier]
+            nxt = []
+            for name, prefix, avail, hits, execs in pool.imap_unordered(_small_task, jobs, chunksize=8):
+                sc = {'algs': c02_e2e.SMALL[name][0], 'targets': c02_e2e.SMALL[name][1],
+                      'script': [list(s) for s in prefix]}
+                for sig, what in hits:
+                    res.hit(sig, what, {'kind': 'e2e', 'scenario': sc, 'seed': ctx['seed']})
+                res.case(('c05-small', name, prefix), nontrivial=any(s[0] == 'fail' for s in prefix) and execs > 2)
+                res.count('e2e-small:histories')
+                res.count(f'e2e-small:depth-{level}')
+                if level < depth:
+                    nxt.extend((name, prefix + (a,)) for a in avail)
+            frontier = nxt
+
+
 def run(ctx, res):
     from .c08_store import Store
     store = Store()
@@ -152,6 +227,9 @@ def run(ctx, res):
         res.count('e2e:scenario')
         for k, v in stats.items():
             res.count('e2e:' + k, v)
+    if thorough:
+        import os
+        exhaustive(ctx, res, depth=int(os.environ.get('VERIF_C05_DEPTH', '5')))
     res.assumptions.append('C05 end to end: the real pl.worker.cluster.execute on in-memory sockets; signal handler, '
                            'context overrides, logging hand-over and db.reopen/close of the worker are stubbed')
 
